@@ -7,7 +7,7 @@
        LuaParse.parse_lua Lua53 (real preamble ++ real emitted text) = ParseOk (pre_block ++ emit_ast code)
    where `code` is Back.IR.lower of the real resolver output.  The semantic preservation theorem
    (Pres/PresProofs.v, Props/C01.v) is about `pre_block ++ emit_ast code`. *)
-From Coq Require Import String List NArith ZArith QArith Bool.
+From Coq Require Import String Ascii List NArith ZArith QArith Bool.
 From Sylt Require Import Syntax.Resolved Back.IR Back.Emit Lua.LuaAst Lua.LuaLex Lua.LuaNum.
 Import ListNotations.
 Local Open Scope string_scope.
